@@ -171,6 +171,9 @@ def extract_grammar(src: Source, lexer_tokens: dict[str, list], rel="language/gr
             for d in st.decorator_list:
                 if isinstance(d, ast.Call) and dotted(d.func) == "_":
                     for a in d.args:
+                        if isinstance(a, ast.Starred) and isinstance(a.value, ast.Name) and a.value.id in _module_rule_seqs(mod):
+                            rules.extend(_module_rule_seqs(mod)[a.value.id])      # @_(*TABLE): the keys / members of a module constant
+                            continue
                         if not (isinstance(a, ast.Constant) and isinstance(a.value, str)):
                             raise AnalysisError(f"{c.name}.{st.name}: grammar rule is not a string literal")
                         rules.append(a.value)
@@ -312,6 +315,29 @@ def extract_grammar(src: Source, lexer_tokens: dict[str, list], rel="language/gr
 
 def _quoted(s: str) -> bool:
     return len(s) >= 2 and s[0] in "'\"" and s[0] == s[-1]
+
+
+def _module_rule_seqs(mod) -> dict:
+    """Module-level names bound to a dict display with string keys, or a tuple / list of strings (iteration order = source order)."""
+    cached = getattr(mod, "_rule_seqs", None)
+    if cached is not None:
+        return cached
+    out = {}
+    for st in mod.tree.body:
+        val = name = None
+        if isinstance(st, ast.Assign) and len(st.targets) == 1 and isinstance(st.targets[0], ast.Name):
+            name, val = st.targets[0].id, st.value
+        elif isinstance(st, ast.AnnAssign) and isinstance(st.target, ast.Name) and st.value is not None:
+            name, val = st.target.id, st.value
+        if isinstance(val, ast.Dict) and val.keys and all(isinstance(k, ast.Constant) and isinstance(k.value, str) for k in val.keys):
+            out[name] = [k.value for k in val.keys]
+        elif isinstance(val, (ast.Tuple, ast.List)) and val.elts and all(isinstance(e, ast.Constant) and isinstance(e.value, str) for e in val.elts):
+            out[name] = [e.value for e in val.elts]
+    try:
+        mod._rule_seqs = out
+    except Exception:  # noqa: BLE001
+        pass
+    return out
 
 
 def _tokens(node, lexer_tokens) -> list[str]:
